@@ -337,8 +337,8 @@ def history(ctx, rng):
         ref_before = ref.copy() if abandon else None
         if rng.random() < 0.2 and len(held) < 3:
             held.append((z.reader(), ref.copy(), step))
-        kind = rng.choice(("add_ns", "add_ns", "del_ns", "del_ns", "add_other", "add_other", "del_other", "del_node", "replace_ns", "cname", "add_below", "rrsig", "reload"))
-        if n == ORIGIN and kind in ("del_node", "cname", "del_ns", "rrsig"):
+        kind = rng.choice(("add_ns", "add_ns", "del_ns", "del_ns", "add_other", "add_other", "del_other", "del_node", "replace_ns", "cname", "add_below", "rrsig", "del_rrsig", "reload"))
+        if n == ORIGIN and kind in ("del_node", "cname", "del_ns", "rrsig", "del_rrsig"):
             kind = "add_other"
         tagn += 1
         if kind == "reload":
@@ -367,8 +367,8 @@ def history(ctx, rng):
                         if rng.random() < 0.5:
                             n = rng.choice(pool)
                         ln = spell(n)
-                        kind = rng.choice(("add_ns", "del_ns", "del_ns", "add_other", "del_other", "del_node", "replace_ns", "cname", "add_below", "rrsig"))
-                        if n == ORIGIN and kind in ("del_node", "cname", "del_ns", "rrsig"):
+                        kind = rng.choice(("add_ns", "del_ns", "del_ns", "add_other", "del_other", "del_node", "replace_ns", "cname", "add_below", "rrsig", "del_rrsig"))
+                        if n == ORIGIN and kind in ("del_node", "cname", "del_ns", "rrsig", "del_rrsig"):
                             kind = "add_other"
                         tagn += 1
                         multi_seen = True
@@ -381,6 +381,14 @@ def history(ctx, rng):
                             cname_seen = True
                         txn.add(ln, 300, rd_for((46, cov), tagn, rdclass))
                         ref.add(fold(n), (46, cov))
+                    elif kind == "del_rrsig":
+                        # a whole signature set goes (re-signing): at a cut this says nothing about the NS set
+                        cov = rng.choice((1, 1, 5, 43, 2))
+                        if rng.random() < 0.6:
+                            txn.add(ln, 300, rd_for((46, cov if cov != 43 else 1), tagn, rdclass))
+                            ref.add(fold(n), (46, cov if cov != 43 else 1))
+                        txn.delete(ln, dns.rdatatype.RRSIG, dns.rdatatype.RdataType.make(cov))
+                        ref.delete(fold(n), (46, cov))
                     elif kind == "add_ns":
                         txn.add(ln, 300, rd_for(2, tagn, rdclass))
                         ref.add(fold(n), 2)
